@@ -534,7 +534,61 @@ def r14(facts, res):
         res.ok(R, 'successors', loc_of(b, h), 'every incomplete item whose symbol is new for this state gets goto(prod[dot]) recorded under that symbol (%d such paths of %d); handled bits cleared per state' % (npush, len(ps)))
 
 
+def r15(facts, res):
+    """The look-ahead set handed to the items of the rule behind the dot is ACCUMULATED over the symbols after the dot: FIRST of
+    every leading nullable rule, then the first token / FIRST of the first non-nullable rule, plus the item's own context when
+    everything was nullable.  Between its reset and its use the scratch set may only grow (`or`, `set(.., true)`); a write
+    that replaces it (clone_from, assignment, and, a second reset inside the accumulation) drops what was collected before."""
+    R = 'R1.5'
+    bs = [b for b in facts.lib_bodies(['lrtable']) if b.name == 'close' and 'Itemset' in (b.impl_of or '') and b.kind != 'closure']
+    if len(bs) != 1:
+        return res.lost(R, 'Itemset::close not found')
+    b = bs[0]
+    adds = [(bb, t) for bb, t in b.calls_named('add') if 'Itemset' in (cpath(t) or '') and len(t['args']) >= 4]
+    if not adds:
+        return res.lost(R, 'no Itemset::add call in close')
+    ctx = b.op_root(adds[0][1]['args'][3])[0]
+    if ctx is None or 'Vob' not in b.lty(ctx):
+        return res.lost(R, 'cannot identify the scratch look-ahead set of close')
+    loops = b.loops()
+    grows, resets, others = [], [], []
+    for bb, t in b.calls():
+        if not t['args'] or op_local(t['args'][0]) is None:
+            continue
+        if not b.lty(op_local(t['args'][0])).startswith('&mut ') or b.op_root(t['args'][0])[0] != ctx:
+            continue
+        nm = cname(t)
+        k = (op_const(t['args'][-1]) or {}).get('int') if len(t['args']) > 1 else None
+        if nm == 'or' or (nm == 'set' and k == 1) or (nm == 'push' and k == 1):
+            grows.append((bb, t))
+        elif (nm == 'set_all' and k == 0) or nm == 'clear':
+            resets.append((bb, t))
+        elif nm in ('deref_mut', 'as_mut', 'borrow_mut', 'index_mut'):
+            continue
+        else:
+            others.append((bb, t))
+    for bb, _i, st in b.stmts():
+        if st['k'] == 'assign' and st['lhs']['l'] == ctx and not st['lhs']['p'] and any(bb in loops[h] for h in loops):
+            others.append((bb, {'callee': {'name': 'an assignment', 'path': 'assignment'}, 'line': st.get('line')}))
+    bad = []
+    for bb, t in others:
+        bad.append('line %s: the look-ahead set being collected is overwritten by `%s`: what the symbols before contributed is lost' % (t.get('line'), (t.get('callee') or {}).get('name', '?')))
+    # the loop that walks the symbols after the dot: the smallest loop that contains a growing write
+    gl = [min((x for x in loops if g in loops[x]), key=lambda x: len(loops[x])) for g, _gt in grows if any(g in loops[x] for x in loops)]
+    sym_loop = min(gl, key=lambda x: len(loops[x])) if gl else None
+    for bb, t in resets:
+        if sym_loop is not None and bb in loops[sym_loop]:
+            bad.append('line %s: the look-ahead set is reset inside the loop that collects it' % t.get('line'))
+    if not grows or not resets:
+        return res.lost(R, 'the scratch look-ahead set of close is never reset or never grown (resets %d, grows %d)' % (len(resets), len(grows)))
+    if bad:
+        res.bad(R, 'context-accumulates', loc_of(b, (others or resets)[0][0]), '; '.join(sorted(set(bad))[:2]))
+    else:
+        res.ok(R, 'context-accumulates', loc_of(b, resets[0][0]), 'between its reset and its use the look-ahead set only grows (%d or/set sites, %d reset)' % (len(grows), len(resets)))
+
+
 def run(facts, res):
+    r15(facts, res)
     r11(facts, res)
     r12(facts, res)
     r13(facts, res)
